@@ -13,6 +13,7 @@ import GluonModel.Lemmas.ConnAck
 import GluonModel.Lemmas.ConnInvalid
 import GluonModel.Lemmas.ConnMsgID
 import GluonModel.Lemmas.ConnMapOrder
+import GluonModel.Lemmas.ConnSpelling
 import GluonModel.Generated.Facts.Ack
 
 namespace Gluon.C06
@@ -526,6 +527,72 @@ theorem apply_idempotent_twice (cfg : Cfg) (db : DB) (u : Update) (hi : Inv db =
     (apply cfg (apply cfg db u).db u).db = db := by
   have h1 := (apply_idempotent cfg db u hi hr).2.1
   rw [h1]; exact h1
+
+/-! ## the spelling of flags
+
+The model above speaks of flag *names* (lower-cased).  The code holds *spellings*: `imap.FlagSet` maps
+`strings.ToLower(flag)` to the flag as first given, `message_flags_v2` stores that spelling, and
+`user.setMessageFlags` asks `Contains` (lower-cases first) in both directions.
+`Model/ConnFlagSpelling.lean` has `FlagSet` and `setMessageFlags` on spellings; `keysOf` takes the
+names.  The oracle sends flags in every letter case relative to what the index holds, in other orders
+and repeated, and compares the stored spellings after every update with `setMessageFlagsSp`. -/
+
+/-- **A `FlagSet` is a set of flag names** — whatever the spelling, order and repeats of the list it
+    is built from: it holds a flag iff the list names it, and never one flag in two spellings. -/
+theorem flagset_is_set_of_names (l : List String) :
+    fsNodup (fsOf l) = true ∧ ∀ k, k ∈ keysOf (fsOf l) ↔ k ∈ keysOf l :=
+  ⟨fsNodup_fsOf l, mem_keysOf_fsOf l⟩
+
+/-- **Restating the flags of a message in other letters, in another order, or more than once removes
+    nothing and adds nothing** — if the update names exactly the flags the message has (by name), then
+    `user.setMessageFlags` calls neither `removeMessageFlags` nor `addMessageFlags`: no row of
+    `message_flags_v2` is touched (the stored spelling stays) and no `RemoteRemove/AddMessageFlags`
+    state update is queued — no FETCH for any session. -/
+theorem restating_flags_any_spelling (stored target : List String)
+    (h : sameSet (keysOf stored) (keysOf target) = true) :
+    setMessageFlagsSp stored target = (stored, [], []) :=
+  setMessageFlagsSp_restating stored target h
+
+/-- the statement is about spellings that differ: `\seen $Kw` stored, the connector says
+    `$KW \Seen \SEEN`; a comparison of the spellings as strings would remove and add both flags -/
+example :
+    setMessageFlagsSp ["\\seen", "$Kw"] ["$KW", "\\Seen", "\\SEEN"] = (["\\seen", "$Kw"], [], []) ∧
+    (diffByString ["\\seen", "$Kw"] ["$KW", "\\Seen", "\\SEEN"]).2 = (["\\seen", "$Kw"], ["$KW", "\\Seen"]) ∧
+    sameSet (keysOf ["\\seen", "$Kw"]) (keysOf ["$KW", "\\Seen", "\\SEEN"]) = true := by
+  decide
+
+/-- **What `user.setMessageFlags` does to spellings is what the model says about names** — for every
+    stored flag set and every list of flags in the update: the model's `setMessageFlags` on the names
+    succeeds with flags `F`, removals `R`, additions `A`, and on the spellings the flags removed are
+    exactly `R` (same order, each in its stored spelling), the flags added are exactly the names `A`
+    (as a set: a Go map is iterated), and the flags afterwards are `F` (as a set).  So every theorem
+    of this file about `MessageFlagsUpdated`, `MessageMailboxesUpdated` and `MessageUpdated` holds
+    for updates spelled in any letter case. -/
+theorem setMessageFlags_spelling_abstraction (db : DB) (iid : Nat) (m : Msg) (hm : db.msgByIid iid = some m)
+    (stored target : List String) (hs : m.flags = keysOf stored) :
+    ∃ (F R A : List Flag), setMessageFlags db iid (keysOf target) =
+        .ok (db.updMsg iid (fun x => { x with flags := F }), R.map (Ev.fetchRem iid) ++ A.map (Ev.fetchAdd iid)) ∧
+      keysOf (setMessageFlagsSp stored target).2.1 = R ∧
+      (∀ k, k ∈ keysOf (setMessageFlagsSp stored target).2.2 ↔ k ∈ A) ∧
+      sameSet (keysOf (setMessageFlagsSp stored target).1) F = true := by
+  refine ⟨_, _, _, setMessageFlags_eq_names db iid m hm (keysOf target), ?_, ?_, ?_⟩
+  · rw [hs]; exact removed_names stored target
+  · intro k; rw [hs]; exact added_names stored target k
+  · rw [hs]; exact after_names stored target
+
+/-- **`MessageFlagsUpdated` that restates the flags in any spelling: nothing a client can observe** —
+    the two halves together: on names the update is `Restates` (so `apply_idempotent`: success, same
+    index, no EXISTS / EXPUNGE / FETCH queued), and on spellings nothing is removed or added. -/
+theorem restating_MessageFlagsUpdated_any_spelling (cfg : Cfg) (db : DB) (rid : RID) (g : Msg)
+    (stored target : List String) (hi : Inv db = true) (hg : db.liveMsg rid = some g)
+    (hs : g.flags = keysOf stored) (h : sameSet (keysOf stored) (keysOf target) = true) :
+    NoEffect db (apply cfg db (.messageFlagsUpdated rid (keysOf target))) ∧
+    setMessageFlagsSp stored target = (stored, [], []) := by
+  refine ⟨apply_idempotent cfg db _ hi ?_, setMessageFlagsSp_restating stored target h⟩
+  simp only [Restates, hg, hs, h]
+
+example : Inv sampleDB = true ∧ sampleDB.liveMsg "a" = some { iid := 0, rid := "a", flags := ["seen"], deleted := false, lit := "l1" } ∧
+    ["seen"] = keysOf ["SEEN"] ∧ sameSet (keysOf ["SEEN"]) (keysOf ["seen", "SeEn"]) = true := by decide
 
 /-! ## updates naming unknown or protected objects -/
 
